@@ -245,3 +245,31 @@ _R10_TAGGED = (' Round 10: TAGGED-OFFSET - the per-line column correction of Rep
 for _p in ('C04', 'C11'):
     CLAIMS[_p]['text'] += _R10_TAGGED
     CLAIMS[_p]['technique'] += '; guard-dominance, pairing and arm-agreement analysis of the tagged column-correction cells (MIR, closure-captured cells)'
+
+CLAIMS['C06']['text'] += (' Round 10: PREFIX-EXHAUST - Rope::starts_with, the prefix test ReplaceSource uses to decide whether the original column '
+                          'of a cut chunk is advanced, returns the constant true on every path where the pieces of its ARGUMENT are exhausted '
+                          'without a mismatch (not a test of what is left of the receiver, which is equality): the decision does not depend on '
+                          'how the chunk text is divided into rope pieces (defect F18 found on the unchanged tree and fixed in /repo 1fb11ee). '
+                          'Conditional rule; decides that clause only, not the comparison of the pieces.')
+CLAIMS['C06']['technique'] += '; exit-value analysis of the argument-exhausted paths of the rope prefix test'
+CLAIMS['C17']['text'] += (' Round 10: the assumption INDEX-GUARDED listed for CharIndices::next ("the last piece of a rope is never empty") was '
+                          'refuted by an independent finding on the unchanged tree; it was removed, the rule reported the site (4 > 3), defect '
+                          'F17 fixed in /repo 9f4bb8a (the engine proves the re-checked bound). CONTENT-UNWRAP - inside a composite streamer the '
+                          'content parameter of a source-announcement callback (Option<Rope>: a supplied map may list a source without '
+                          'sourcesContent) is unwrapped only where a forward may-be-None analysis of the callback shows it was assigned Some(..) '
+                          'or tested to be Some (defect F19 found on the unchanged tree and fixed in /repo 9e18ce2). NOT decided: allocation '
+                          'size (a wild inner name / source index makes LinearMap::insert allocate index + 1 slots - seen, DESIGN 6).')
+CLAIMS['C17']['technique'] += '; forward may-be-None analysis of announced-content parameters'
+CLAIMS['C14']['text'] += (' Round 10: FILL-AGREE - every first-writer of CachedSource\'s map cache stores the value inner.map(options) returned '
+                          '(one producer per key), so that map() of an unchanged value does not depend on which call filled the cache. The '
+                          'unchanged tree violates it (stream_chunks stores the map re-encoded from the streamed chunks under the same key): '
+                          'genuine defect F20, reproduced against the real code, recorded as an OPEN known finding (known_findings.json) '
+                          'because the repair is a design decision, not a small patch; the check prints KNOWN-FINDING for exactly that key and '
+                          'reports any other producer.')
+CLAIMS['C14']['technique'] += '; producer agreement of the first-writers of the map cache'
+CLAIMS['C20']['text'] += (' Round 10: HASH-FRAMED - a hand-written Hash impl that feeds a variable number of children whose own hash has variable '
+                          'length (dyn Source / Box) also feeds the element count or hashes the vector as a whole. The unchanged tree violates it '
+                          '(ConcatSource::hash): genuine defect F21 - two trees with different text feed every hasher the identical call '
+                          'sequence - reproduced against the real code and recorded as an OPEN known finding, because the repair moves the '
+                          'constant the pinned test hash_available asserts; the check prints KNOWN-FINDING for exactly that key.')
+CLAIMS['C20']['technique'] += '; framing check of child-list loops in hand-written Hash impls'
